@@ -227,3 +227,8 @@ Proof. intros I args r G H. eapply sql_supported_documented; [exact I | apply sq
 Lemma pg_is_nan_of_nan_refuted_current mf mf2 :
   exists args r r', spec_method mf mf2 "is_nan" args = Some r /\ sql_eval mf mf2 current DPg "is_nan" [false] args = Some r' /\ differs r' r.
 Proof. exact (pg_is_nan_of_nan_refuted mf mf2 current). Qed.
+Theorem sql_supported_documented_current_any_literals mf mf2 d m lits0 :
+  In (m, lits0) (supported_sql d) -> str_in m literal_arg_methods = false ->
+  forall lits args r, pg_is_nan_guard d m args = true -> spec_method mf mf2 m args = Some r ->
+    exists r', sql_eval mf mf2 current d m lits args = Some r' /\ sv_eqv r' r.
+Proof. intros I NL lits args r G H. eapply sql_supported_documented_any_literals; [exact I | exact NL | apply sql_guard_current; exact G | exact H]. Qed.
